@@ -302,7 +302,7 @@ def inject_spec(pid: str, features: str = "plain"):
 
 NOT_APPLICABLE = {
     "C13": "ProtobufEncoder::encode delegates to the protobuf crate's write_length_delimited_to_writer over the generated proto/proto_model.rs; executing that runtime under Kani/CBMC on the smallest concrete family (name, type, one empty metric; kani/pb_c13.rs, kept but not registered) ran into the 15-minute limit for both harnesses (measured), the method cannot be stubbed per receiver type, and neither Verus nor Kani can take generated code plus a third-party runtime under contract; the only part within reach, check_metric_family's refusal of nameless/empty families, is discharged under C17 (text encoder harness c17_encode_every_metric_type_no_panic).",
-    "C07": "RegistryCore::gather does not finish under CBMC: with the collections shim, sort_by and format! replaced by their contracts, a registry holding ONE collector with ONE sample (c07_common_labels_order0) and two-collector scenarios each ran into the 60-minute limit (measured twice; moves of the ~200-byte Metric/MetricFamily structs through vectors and the string-keyed BTreeMap dominate). No contract on gather() can therefore be discharged here; the harness text is kept in kani/registry_c07.rs but is not registered. Verus cannot take the function (BTreeMap entry API, iterator adapters, closures).",
+    "C07": "RegistryCore::gather does not finish under CBMC: with the collections shim, sort_by and format! replaced by their contracts, a registry holding ONE collector with ONE sample ran into the 60-minute limit with two common labels (c07_common_labels_order0) and into a 25-minute limit even without prefix and labels (c07_gather_single_collector_minimal), and so did every two-collector scenario (measured; moves of the ~200-byte Metric/MetricFamily structs through vectors and the string-keyed BTreeMap dominate). No contract on gather() can therefore be discharged here; the harness text is kept in kani/registry_c07.rs but is not registered. Verus cannot take the function (BTreeMap entry API, iterator adapters, closures).",
     "C14": "same function as C07 (RegistryCore::gather merges families by name without looking at the type): out of CBMC's reach (measured, 60-minute limit). Reading the code shows the defect the property describes (a counter and a gauge sharing name and help are merged into one family whose declared type is that of the first collector iterated), but no check of this framework decides it, so it is neither claimed nor listed as a known finding; see DESIGN.md.",
     "C19": "quantifies over all make_static_metric! declarations: the code is a proc-macro token-stream generator (syn/quote); no contract on a token builder can express 'the generated item addresses child X', and checking a few fixed expansions has no symbolic input (DESIGN.md section 5 C19)",
 }
